@@ -22,6 +22,12 @@ SwapApplies(ents, opts) ==
 DirOpen(msg) == \E i \in DOMAIN msg.ents :
                     /\ msg.ents[i].k \in {"tu", "vp"} /\ IsSome(msg.ents[i].trip) /\ HasNyct(Val(msg.ents[i].trip))
                     /\ OrElse(Val(Val(msg.ents[i].trip).nyct).dir, 0) \notin {1, 3}
+(* an assigned trip WITHOUT a train id on an entity that carries a vehicle descriptor of its own: C16 names the    *)
+(* vehicle of an assigned trip by its train id, so here the property leaves the vehicle's id open (the feed's own *)
+(* descriptor may be kept or replaced by an anonymous one)                                                        *)
+TrainOpen(msg) == \E i \in DOMAIN msg.ents :
+                    /\ msg.ents[i].k \in {"tu", "vp"} /\ IsSome(msg.ents[i].trip) /\ Assigned(Val(msg.ents[i].trip))
+                    /\ OrElse(Val(Val(msg.ents[i].trip).nyct).train, 0) = 0 /\ IsSome(msg.ents[i].veh)
 MsgStep(e) ==
     LET c == e.case msg == e.msg opts == e.opts r == e.res
         ents2 == Pre(msg, opts).ents
@@ -31,7 +37,8 @@ MsgStep(e) ==
         (* an entity carrying several payloads: which of them a parser uses is not fixed by any property; only the *)
         (* clauses that hold under every reading apply                                                              *)
         fused == "fuse" \in DOMAIN msg
-        cf == ConflictFree(ents2) /\ ~dirOpen /\ ~fused
+        trainOpen == TrainOpen(msg)
+        cf == ConflictFree(ents2) /\ ~dirOpen /\ ~fused /\ ~trainOpen
         ok == e.err = ""
     IN
     /\ Check("C16.parses", c, l, ok /\ e.plainErr = "")
@@ -43,7 +50,7 @@ MsgStep(e) ==
     /\ Check("C16.unique-sorted", c, l, ok => (C07_UniqueTrips(r) /\ C07_TripsSorted(r)))
     (* the same clauses under the names of the general properties they instantiate for a parse with an extension *)
     /\ Check("C04.links-with-nyct-extension", c, l, (ok /\ cf) => C04_Links(ents2, r))
-    /\ Check("C04.links-mutual-with-nyct-extension", c, l, (ok /\ ConflictFree(ents2) /\ ~dirOpen) => C04_LinksMutual(r))
+    /\ Check("C04.links-mutual-with-nyct-extension", c, l, (ok /\ ConflictFree(ents2) /\ ~dirOpen /\ ~trainOpen) => C04_LinksMutual(r))
     /\ Check("C07.unique-sorted-with-nyct-extension", c, l, ok => (C07_UniqueTrips(r) /\ C07_TripsSorted(r) /\ C07_UniqueVehicleIds(r)))
     /\ Check("C07.order-independent-with-nyct-extension", c, l,
              cf => \A k \in DOMAIN e.perms : e.perms[k].err = "" => C07_SameTripsVehiclesLinks(e.perms[k].res, r))
